@@ -11,9 +11,11 @@ def _p(**kw):
 
 PROFILES = {
     # property -> list of (weight, profile dict)
-    "C01": [(6, _p(world="mem", kinds=MF)), (3, _p(world="sim", kinds=MF_SIM, fault_kinds=["crash"])), ],
+    "C01": [(6, _p(world="mem", kinds=MF)), (3, _p(world="sim", kinds=MF_SIM, fault_kinds=["crash"])),
+            (2, _p(world="local", kinds=MF, p_async_stop=0.0)), ],
     "C02": [(6, _p(world="mem", kinds=MF, p_latency=0.8, p_no_ckpt_script=0.4)),
-            (3, _p(world="sim", kinds=MF_SIM, p_latency=0.8, p_no_ckpt_script=0.4, p_no_maxres=0.6, fault_kinds=["crash"])), ],
+            (3, _p(world="sim", kinds=MF_SIM, p_latency=0.8, p_no_ckpt_script=0.4, p_no_maxres=0.6, fault_kinds=["crash"])),
+            (2, _p(world="local", kinds=MF, p_latency=0.8, p_no_ckpt_script=0.4, p_noise=0.6, p_async_stop=0.0)), ],
     "C03": [(6, _p(world="mem", kinds=["hb_stopping", "hb_stopping", "hb_rush_stopping"], p_fault_free=0.6, p_ties=0.2,
                    fault_kinds=["crash"], max_trials=25)), ],
     "C04": [(6, _p(world="mem", kinds=["hb_promotion", "hb_promotion", "hb_pasha", "hb_cost_promotion", "hb_rush_promotion"],
@@ -21,20 +23,29 @@ PROFILES = {
     "C05": [(6, _p(world="mem", kinds=["sync_hb", "sync_hb", "sync_hb_custom", "sync_hb_custom", "dehb"], p_fault_free=0.4,
                    fault_kinds=["crash"], p_ties=0.15, p_tiny_space=0.2, p_nodelay_false=0.05)), ],
     "C06": [(6, _p(world="mem", kinds=MF, p_tiny_space=0.35, p_pte=0.7, p_fault_free=0.5)), ],
+    "C18": [(5, _p(world="local", kinds=MF, p_payload=0.8, p_rejects=0.5, p_noise=0.8, p_extra=0.5, max_trials=10)),
+            (3, _p(world="mem", kinds=MF, p_payload=0.8, p_rejects=0.5, p_noise=0.8, p_extra=0.5)), ],
     "C19": [(6, _p(world="mem", kinds=["moasha"], p_fault_free=0.7, p_ties=0.3, fault_kinds=["crash"])), ],
     "C14": [(6, _p(world="mem", kinds=["hb_stopping_bo", "hb_promotion_bo", "hb_promotion_bo", "hb_hypertune", "hb_dyhpo", "sync_hb_bo"],
                    p_fault_free=0.5, fault_kinds=["crash"], p_no_ckpt_script=0.4, max_trials=12, p_nodelay_false=0.05)), ],
     "C20": [(6, _p(world="mem", kinds=["hb_promotion", "hb_pasha", "hb_cost_promotion", "hb_rush_promotion", "sync_hb", "sync_hb_custom",
                                        "dehb", "pbt", "pbt"], p_delete_ckpt=0.8, p_fault_free=0.6, fault_kinds=["crash"],
-                   p_no_ckpt_script=0.1, p_nodelay_false=0.05)), ],
+                   p_no_ckpt_script=0.1, p_nodelay_false=0.05)),
+            (3, _p(world="local", kinds=["hb_promotion", "hb_pasha", "hb_cost_promotion", "hb_rush_promotion", "sync_hb", "sync_hb_custom",
+                                         "dehb", "pbt", "pbt"], p_delete_ckpt=0.8, p_fault_free=0.6, fault_kinds=["crash"],
+                   p_no_ckpt_script=0.1, p_nodelay_false=0.05, p_async_stop=0.0)), ],
     "C10": [(6, _p(world="sim", kinds=MF_SIM, p_fault_free=0.7, fault_kinds=["crash"], p_latency=0.6)), ],
     "C12": [(6, _p(world="mem", kinds=MF, p_noreport=0.08, p_callback_raise=0.2, p_wait=0.4,
                    stop_fields=["max_num_trials_started", "max_num_trials_finished", "max_num_trials_completed",
                                 "max_num_evaluations", "max_wallclock_time", "max_metric_value", "min_metric_value", "max_cost"])),
-            (2, _p(world="sim", kinds=MF_SIM, fault_kinds=["crash"], p_wait=0.4, p_callback_raise=0.1)), ],
+            (2, _p(world="sim", kinds=MF_SIM, fault_kinds=["crash"], p_wait=0.4, p_callback_raise=0.1)),
+            (2, _p(world="local", kinds=MF, p_noreport=0.08, p_callback_raise=0.2, p_wait=0.4, p_async_stop=0.0)), ],
     "C13": [(6, _p(world="mem", kinds=MF, p_fault_free=0.0, p_latency=0.5)),
-            (2, _p(world="sim", kinds=MF_SIM, p_fault_free=0.0, fault_kinds=["crash"])), ],
-    "C17": [(6, _p(world="mem", kinds=MF, p_extra=0.7, p_callback_raise=0.1)), ],
+            (2, _p(world="sim", kinds=MF_SIM, p_fault_free=0.0, fault_kinds=["crash"])),
+            (2, _p(world="local", kinds=MF, p_fault_free=0.0, p_async_stop=0.0)), ],
+    "C17": [(6, _p(world="mem", kinds=MF, p_extra=0.7, p_callback_raise=0.1, p_payload=0.3)),
+            (2, _p(world="local", kinds=MF, p_extra=0.7, p_callback_raise=0.1, p_payload=0.3, p_async_stop=0.0)),
+            (2, _p(world="sim", kinds=MF_SIM, fault_kinds=["crash"])), ],
 }
 
 
